@@ -85,7 +85,7 @@ func (c RawConfiguration) handleAsyncCall(ctx context.Context, fut *Async, state
 
 	for {
 		if len(errs)+len(replies) == state.expectedReplies {
-			fut.reply, fut.err = resp, QuorumCallError{cause: Incomplete, errors: errs, replies: len(replies)}
+			fut.reply, fut.err = resp, QuorumCallError{cause: incompleteCause(ctx), errors: errs, replies: len(replies)}
 			return
 		}
 		select {
